@@ -257,6 +257,8 @@ impl WorkerState for W {
         }
         let empty: Vec<u8> = Vec::new();
         let prog = self.program(case.first().unwrap_or(&empty), case.get(1).unwrap_or(&empty));
+        // measured before compiling: tracked values held by script constants live as long as the package
+        let (live0, tz0) = host::live_count();
         let (src, compiled) = compile_program(&self.rt, &prog, Parens::Minimal);
         let (pkg, mainf) = match compiled {
             Ok(x) => x,
@@ -293,7 +295,6 @@ impl WorkerState for W {
             o.classes.push("all-inputs-trap".into());
             return o;
         }
-        let (live0, tz0) = host::live_count();
         let inputs = Arc::new(inputs);
         let barrier = Arc::new(Barrier::new(n_threads + n_compilers));
         let t0 = Instant::now();
